@@ -9,6 +9,7 @@ CONSTANTS
 INVARIANTS
   CompleteOK
   SplitOK
+  BothOK
   FitsOK
   Emit
 CHECK_DEADLOCK FALSE
